@@ -161,5 +161,8 @@ namespace vio
     case 3: { constexpr std::size_t LL = 3; CALL_VEC; } break;  \
     case 4: { constexpr std::size_t LL = 4; CALL_VEC; } break;  \
     case 5: { constexpr std::size_t LL = 5; CALL_VEC; } break;  \
+    case 6: { constexpr std::size_t LL = 6; CALL_VEC; } break;  \
+    case 7: { constexpr std::size_t LL = 7; CALL_VEC; } break;  \
+    case 8: { constexpr std::size_t LL = 8; CALL_VEC; } break;  \
     default: throw std::runtime_error("unsupported L");         \
   }
